@@ -117,13 +117,18 @@ pub fn evaluate(prog: &Arc<Program>, prop: &str, cross: bool) -> Evaluated {
     // which forms of the public API this execution went through (independent of the property under check)
     for c in a.cmds.iter() {
         match &c.act {
-            RAct::Register { once, form, mode, .. } => {
+            RAct::Register { once, form, mode, flavour, .. } => {
                 let shape = form % N_SHAPES;
-                let api = (form / N_SHAPES) % 2;
+                let api = form / N_SHAPES;
+                if *flavour == Flavour::Zst {
+                    cover.count("api/registrations_of_the_same_zero_sized_fn_item", 1);
+                }
                 cover.count(if shape == 0 { "api/register_bundle_dyn" } else { "api/register_bundle_real_tuples" }, 1);
                 if *once {
                     cover.count("api/register_once", 1);
-                } else if api == 0 {
+                } else if api == 2 {
+                    cover.count("api/register_app_add_reactor", 1);
+                } else if api % 2 == 0 {
                     cover.count("api/register_spawn_plus_with", 1);
                 } else {
                     cover.count(
@@ -136,6 +141,7 @@ pub fn evaluate(prog: &Arc<Program>, prop: &str, cross: bool) -> Evaluated {
                     );
                 }
             }
+            RAct::WrAdd { wr: 1, .. } if c.run == 0 => cover.count("api/world_reactor_starting_triggers", 1),
             RAct::RunEnt { .. } => cover.count("api/run_command_to_plain_entity", 1),
             RAct::SendSeEnt { .. } => cover.count("api/system_event_to_plain_entity", 1),
             _ => {}
